@@ -503,12 +503,18 @@ func runCase(r *hx.Run, c hx.Case) {
 				got = nil
 				break
 			}
-			got = append(got, pl.Verb+" "+pl.Box.String())
+			got = append(got, pl.Verb+" "+pl.Box.Local+"@"+strings.ToLower(pl.Box.Domain))
 		}
 		if got != nil {
 			exp := []string{"MAIL " + wantSender}
 			for _, w := range want {
 				exp = append(exp, "RCPT "+w)
+			}
+			// the local part byte for byte, the domain without regard to letter case (RFC 5321 section 2.4)
+			for i, e := range exp {
+				if at := strings.LastIndex(e, "@"); at >= 0 {
+					exp[i] = e[:at] + strings.ToLower(e[at:])
+				}
 			}
 			if strings.Join(got, "\x00") != strings.Join(exp, "\x00") {
 				r.Fail(c.ID, "rcpt-sequence-differs", fmt.Sprintf("server saw %q, message says %q", got, exp))
@@ -938,6 +944,15 @@ func Run(r *hx.Run, replay []hx.Case) {
 		{{"From", []string{`"a b"@x.test`}}, {"To", []string{`"x>y"@x.test`, `"p@q"@x.test`}}},
 	} {
 		runCase(r, hx.Case{ID: r.NewID(), Kind: "seq", Args: []string{opsString(ops)}})
+	}
+	// '@' + upper case inside quoted local parts, mixed-case domains, recipients differing only in letter case
+	for _, slot := range slots {
+		runCase(r, hx.Case{ID: r.NewID(), Kind: "seq", Args: []string{opsString([]op{
+			{"From", []string{`"Jane@HQ"@Example.COM`}}, {"EnvelopeFrom", []string{`"Bounce@Dept"@MAIL.Example.Org`}},
+			{slot, append(addrx.CaseVariants("Alice", "example.com"), `"a@B"@Example.COM`)},
+			{"Add" + slot, []string{`"Ann@X@Yz"@x.test`}}, {"Add" + slot + "Format", []string{"Upper", "ALICE@Example.com"}},
+			{"Add" + slot, []string{`"jane@hq"@example.com`}},
+		})}})
 	}
 	// an entry without display name whose local part needs quoting, then Add / AddFormat on the same header
 	for i, l := range addrx.QuoteNeedLocals {
